@@ -563,6 +563,10 @@ class HStep(Step):
             if mat.memerr:
                 self.outcome = "refused"
                 self.res.probe("cross_buffer_reference_refused")
+                # referents accepted before the offending one may already have been marked as
+                # shared (no longer movable) by the refused construction: not moved later (DESIGN 11.4)
+                for x in mat.pinned:
+                    x.pinned = True
                 return
             self.outcome = "raised:" + exc_sig(e)
             self.viol("C18", "construct_raised", ["h_construct", exc_sig(e), typegen.features(w.schema, t)], f"{type(e).__name__}: {e}; value {str(op['value'])[:300]}")
